@@ -482,6 +482,14 @@ def replay(cex):
                                             survey.frequencies):
                 out[f'efield (repeated compute) {s_} {f_}'] = \
                     sim.get_efield(s_, f_).field.copy()
+            # re-compute after a model change WITHOUT clean: the existing
+            # fields are the solver's initial guess (warm start)
+            sim.model.property_x[1, :, :] *= 1.1
+            sim.compute()
+            for s_, f_ in itertools.product(survey.sources,
+                                            survey.frequencies):
+                out[f'efield (re-computed, warm start) {s_} {f_}'] = \
+                    sim.get_efield(s_, f_).field.copy()
             sim.model.property_x[0, :, :] = 1.2345
             sim.clean('computed')
             sim.compute()
